@@ -2309,7 +2309,7 @@ class Attribute(object):
             throw(TypeError, 'Cannot change value of primary key')
         with cache.flush_disabled():
             old_val =  obj._vals_.get(attr, NOT_LOADED)
-            if old_val is NOT_LOADED and reverse and not reverse.is_collection:
+            if old_val is NOT_LOADED and reverse:  # the previous owner has to learn that the object leaves it
                 old_val = attr.load(obj)
             status = obj._status_
             wbits = obj._wbits_
